@@ -535,8 +535,24 @@ class Facts:
                 self.renamed = notes
         except Exception as e:      # never let the tolerance layer break a check
             self.renamed = ["rename tolerance disabled: %s" % e]
+        # field / variant rename tolerance (vlib/adt_renames.py)
+        vmap, fmap = {}, {}
+        try:
+            from . import adt_renames
+            vmap, fmap, anotes = adt_renames.compute([json.loads(t) for t in raws])
+            if vmap:
+                raws = [adt_renames.apply_variants(t, vmap) for t in raws]
+            self.renamed = list(self.renamed) + anotes
+        except Exception as e:
+            self.renamed = list(self.renamed) + ["member-rename tolerance disabled: %s" % e]
+            vmap, fmap = {}, {}
         for t in raws:
             d = json.loads(t)
+            if fmap:
+                try:
+                    adt_renames.apply_fields(d, fmap)
+                except Exception as e:
+                    self.renamed = list(self.renamed) + ["field-rename rewrite failed: %s" % e]
             unit = "%s-%s" % (d["crate"], d["crate_type"])
             self.units[unit] = d
             types = [tnorm(t) for t in d["types"]]
